@@ -876,6 +876,11 @@ def call_extclass(I, c, args, kwargs, node=None):
                 if len(v) == 2 and all(kind_of(x) == "int" for x in v):
                     return addr_str(I, v[0], v[1])
                 return Opaque("str(tuple)")
+            if isinstance(v, tuple) and len(v) == 2 and I.ext_state.get("addr_axioms_assumed") \
+                    and all(isinstance(x, int) and not isinstance(x, bool) for x in v):
+                # inside a task whose document keys are symbolic address strings, the key of a literal address is the
+                # same canonical term (otherwise a literal "(0, 1)" and ADDR_STR(0, 1) would be unrelated names)
+                return addr_str(I, v[0], v[1])
             return str(v)
         return Opaque("str()")
     if n == "builtins.list":
